@@ -22,6 +22,8 @@ pub struct Case {
     pub fam: Fam,
     pub n: usize,
     pub threads: usize,
+    /// repetition number (fresh draws each time)
+    pub rep: usize,
 }
 
 /// draws of one thread: blocks of every draw, or the first malformation
@@ -148,17 +150,17 @@ fn run(c: &Case) -> Verdict {
 }
 
 fn strategy(_t: Tier) -> BoxedStrategy<Case> {
-    (crate::gen::arb_fam(), 0usize..=12, prop_oneof![Just(1usize), Just(THREADS)]).prop_map(|(fam, n, threads)| Case { fam, n, threads }).boxed()
+    (crate::gen::arb_fam(), 0usize..=12, prop_oneof![Just(1usize), Just(THREADS)]).prop_map(|(fam, n, threads)| Case { fam, n, threads, rep: 0 }).boxed()
 }
 
 fn enumerate(t: Tier, shard: usize, nshards: usize, f: &mut dyn FnMut(Case) -> bool) {
     let mut sc = ShardCounter::new(shard, nshards);
     // thorough repeats the whole sweep several times (fresh draws each time)
-    for _rep in 0..t.pick(1usize, 8) {
+    for rep in 0..t.pick(4usize, 16) {
         for fam in [Fam::Dyn, Fam::Static] {
             for n in 0..=12usize {
                 for threads in [1usize, THREADS] {
-                    if sc.mine() && !f(Case { fam, n, threads }) {
+                    if sc.mine() && !f(Case { fam, n, threads, rep }) {
                         return;
                     }
                 }
@@ -170,7 +172,7 @@ fn enumerate(t: Tier, shard: usize, nshards: usize, f: &mut dyn FnMut(Case) -> b
 pub fn def() -> PropDef {
     PropDef {
         id: "C19",
-        rule: "cases = (family, n in 0..=12, thread count in {1, 16}); the inputs are random()'s own draws: 256 draws on the main thread, and 256 draws on each of 16 threads released together by a barrier. Every draw must be well formed (block count, no bit >= 2^n, value() consistent with blocks()); per thread, every assignment must receive both values among the 256 draws, the draws must not all be equal, must be pairwise distinct for n >= 8 (at most one repeat for n = 7); no two threads may produce the same sequence for n >= 3, and for n >= 8 no table may repeat across threads. All (family, n, threads) combinations are swept once (quick) or 8 times (thorough): 52 resp. 416 sweeps, 13 312 resp. 106 496 x 17/2 draws. Every case is non-trivial (distinct by family, n, threads); evaluations counts sweeps, the evidence also reports draws.",
+        rule: "cases = (family, n in 0..=12, thread count in {1, 16}); the inputs are random()'s own draws: 256 draws on the main thread, and 256 draws on each of 16 threads released together by a barrier. Every draw must be well formed (block count, no bit >= 2^n, value() consistent with blocks()); per thread, every assignment must receive both values among the 256 draws, the draws must not all be equal, must be pairwise distinct for n >= 8 (at most one repeat for n = 7); no two threads may produce the same sequence for n >= 3, and for n >= 8 no table may repeat across threads. All (family, n, threads) combinations are swept 4 times (quick) or 16 times (thorough): 208 resp. 832 sweeps of 256 draws per thread. Every case is non-trivial (distinct by family, n, threads); evaluations counts sweeps, the evidence also reports draws.",
         assumptions: vec![
             "statistical: thresholds chosen so that a fair generator raises an alarm with probability < 2^-200 per run",
             "thread_rng cannot be seeded: VERIF_SEED only labels the run; schedules are explored as `16 threads started together`",
@@ -181,7 +183,7 @@ pub fn def() -> PropDef {
             strategy,
             cases: (0, 0),
             exhaustive: Some(enumerate),
-            exhaustive_note: "every (family, n in 0..=12, threads in {1,16}) once (quick) / 8 times (thorough); 256 draws per thread",
+            exhaustive_note: "every (family, n in 0..=12, threads in {1,16}) 4 times (quick) / 16 times (thorough); 256 draws per thread",
             run,
         })],
     }
